@@ -6,7 +6,9 @@ package main
 import (
 	"fmt"
 	"math/rand"
+	"runtime"
 	"strings"
+	"sync"
 
 	"github.com/nelhage/taktician/tak"
 )
@@ -168,8 +170,70 @@ func emitC01Into(c *ctx, p *tak.Position, m tak.Move, buf *tak.Position) c01resu
 	c.printf("CASE %s ; %s | %s | %s\n", before, encMove(m), l1, l2)
 	if cls, why := c01OracleAbs(a0, m, res); cls != "" {
 		c.printf("ORACLE-FAIL %s | %s ; %s | %s | %s\n", cls, before, encMove(m), l1, why)
+	} else if len(c01Seen) < 6000 && (res.class == "OK" || len(c01Seen)%3 == 0) {
+		c01Seen = append(c01Seen, c01Rec{p, m, l1})
 	}
 	return res
+}
+
+// c01Seen: (position, move) pairs of this run whose sequential result the rules oracle accepted, with that result
+type c01Rec struct {
+	p  *tak.Position
+	m  tak.Move
+	l1 string
+}
+
+var c01Seen []c01Rec
+
+// c01Concurrent: Position.Move from several goroutines at once, on positions of different board sizes, each into fresh storage
+// (several games served by one process); every caller must get what the sequential caller got.
+func c01Concurrent(c *ctx, rounds int) {
+	if len(c01Seen) == 0 {
+		return
+	}
+	old := runtime.GOMAXPROCS(0)
+	if old < 4 {
+		runtime.GOMAXPROCS(4)
+		defer runtime.GOMAXPROCS(old)
+	}
+	const workers = 6
+	var mu sync.Mutex
+	var bad []string
+	var calls int64
+	var wg sync.WaitGroup
+	for w := 0; w < workers; w++ {
+		wg.Add(1)
+		go func(w int) {
+			defer wg.Done()
+			n := 0
+			for k := 0; k < rounds; k++ {
+				rec := c01Seen[(w*7919+k*31+k*k)%len(c01Seen)]
+				res := applyMove(rec.p, rec.m)
+				l1 := res.class
+				if res.next != nil {
+					l1 += " " + encAbs(res.next)
+				}
+				n++
+				if l1 != rec.l1 {
+					mu.Lock()
+					bad = append(bad, fmt.Sprintf("ORACLE-FAIL concurrent-result-differs | %s ; %s ;; called while %d other goroutines apply moves to positions of sizes 3..8 | %s | the sequential (rules-conforming) result %s",
+						enc(rec.p), encMove(rec.m), workers-1, l1, rec.l1))
+					mu.Unlock()
+					break
+				}
+			}
+			mu.Lock()
+			calls += int64(n)
+			mu.Unlock()
+		}(w)
+	}
+	wg.Wait()
+	c.stat("concurrent_calls", calls)
+	for i, b := range bad {
+		if i < 3 {
+			c.printf("%s\n", b)
+		}
+	}
 }
 
 // c01Dfs: the search pattern: one buffer per ply, every pseudo-legal move of a node tried into the same buffer
@@ -249,13 +313,25 @@ func c01Position(c *ctx, p *tak.Position, every int, nbad int) {
 func runC01(c *ctx) {
 	if c.tier == "replay" {
 		rf := readReplay(c)
-		parts := strings.Split(rf.Input, ";")
+		in := rf.Input
+		conc := strings.Contains(in, " ;; ")
+		if i := strings.Index(in, " ;; "); i >= 0 {
+			in = in[:i]
+		}
+		parts := strings.Split(in, ";")
 		p, err := decodeEnc(parts[0])
 		if err != nil || len(parts) < 2 {
 			fmt.Println("bad replay input")
 			return
 		}
-		emitC01(c, p, decodeMove(parts[1]))
+		emitC01(c, p, decodeMove(strings.TrimSpace(parts[1])))
+		if conc { // a failure of the concurrent family: the pair again next to positions of every size
+			for s := 3; s <= 8; s++ {
+				q, _, _ := constructedBoard(c.r, s, 8, 0.5)
+				c01Position(c, q, 3, 2)
+			}
+			c01Concurrent(c, 20000)
+		}
 		return
 	}
 	r := c.r
@@ -300,4 +376,5 @@ func runC01(c *ctx) {
 			}
 		}
 	}
+	c01Concurrent(c, 3000*c.scale)
 }
